@@ -718,9 +718,16 @@ func (s *BgpServer) filterpath(peer *peer, path, old *table.Path) *table.Path {
 	// When 'path' is filtered (path == nil), check 'old' has been sent to this peer.
 	// If it has, send withdrawal to the peer.
 	if path == nil && old != nil {
-		o := peer.policy.ApplyPolicy(peer.TableID(), table.POLICY_DIRECTION_EXPORT, old, options)
-		if o != nil {
-			path = old.Clone(true)
+		// 'old' is judged as it was when it was advertised: after the same loop
+		// checks and attribute rewriting. Evaluating the Loc-RIB path as is lets a
+		// policy that looks at a rewritten attribute (AS_PATH length or content
+		// toward an eBGP peer, next hop, LOCAL_PREF toward an iBGP peer) take a
+		// route that was sent for one that was not, and leave it on the peer.
+		if o, oldOptions, stop := s.prePolicyFilterpath(peer, old, nil); !stop {
+			oldOptions.Validate = s.roaTable.Validate
+			if peer.policy.ApplyPolicy(peer.TableID(), table.POLICY_DIRECTION_EXPORT, o, oldOptions) != nil {
+				path = old.Clone(true)
+			}
 		}
 	}
 
